@@ -2697,4 +2697,18 @@ theorem C04_reachable_creation_hypotheses (ops : List (Op ⊕ Forest.COp)) :
 example : (creationRun [.inl (.newElement 2), .inr (.appendNew 0 (.text ['a'])), .inr (.appendNew 0 (.element 2)),
     .inr (.appendNew 0 (.text ['b']))]).roots.map (fun r => r.erase.kids.length) = [3] := by decide +kernel
 
+/-- ⟦C01_reachable_creation_representable⟧ For a tree reached by a history of `Op` calls and convenience calls, the
+    C01 domain is a condition on its VALUES only (while consolidation has never been switched off): the
+    structural clauses are discharged by the invariant (`C01_reachable_representable` for these histories). -/
+theorem C01_reachable_creation_representable (ops : List (Op ⊕ Forest.COp))
+    (hoff : (creationRun ops).everOff = false) :
+    ∀ r ∈ (creationRun ops).roots, ∀ env' : Env,
+      RepresentableFragment env' r.erase =
+        (envOK env' && r.value.isDocument && r.erase.allNodes (fun v _ => valueOK env' v) &&
+          decide (xmlIdValues env' r.erase).Nodup) ∧
+      Representable env' r.erase =
+        (envOK env' && r.value.isDocument && r.erase.allNodes (fun v _ => valueOK env' v) &&
+          decide (xmlIdValues env' r.erase).Nodup && singleRoot r.erase) :=
+  fun _ hr env' => Reach.representable_root (C04_reach_creation ops) hoff hr env'
+
 end XotModel.Props
